@@ -1569,6 +1569,31 @@ func (x *Exec) forStmt(st *State, t *ast.ForStmt) []*State {
 			}
 		}
 	}
+	if L.VarObj == nil {
+		// "for ; i < n; i++": induction variable taken from the post statement
+		var id *ast.Ident
+		switch ps := t.Post.(type) {
+		case *ast.IncDecStmt:
+			id, _ = ps.X.(*ast.Ident)
+		case *ast.AssignStmt:
+			if len(ps.Lhs) == 1 {
+				id, _ = ps.Lhs[0].(*ast.Ident)
+			}
+		}
+		if id != nil {
+			if obj := x.Info.Uses[id]; obj != nil {
+				L.VarObj = obj
+				if v, ok := head.vars[obj]; ok {
+					if tm := v.single(); tm != nil && len(tm.M) == 1 {
+						L.Var = tm.M[0].A
+					}
+				}
+				if v, ok := st.vars[obj]; ok {
+					L.Lo = v
+				}
+			}
+		}
+	}
 	if t.Cond != nil {
 		c := x.cond(head, t.Cond)
 		c.Loop = true
